@@ -49,7 +49,9 @@ class Repo:
                 for c in it.children:
                     if c.kind == kind and c.name == name:
                         cands.append(c)
-            elif it.kind == "impl" and it.impl_trait is not None and impl == "%s for %s" % (it.impl_trait.split("<")[0].strip(), it.impl_target):
+            elif it.kind == "impl" and it.impl_trait is not None and impl.replace(" ", "") in (
+                    ("%s for %s" % (it.impl_trait.split("<")[0].strip(), it.impl_target)).replace(" ", ""),
+                    norm(it.text(it.a, it.body[0])).replace(" ", "")[len("impl"):]):
                 for c in it.children:
                     if c.kind == kind and c.name == name:
                         cands.append(c)
@@ -247,8 +249,9 @@ def generate(spec_path, root, std_contracts_path=None):
     out = Out()
     rules = {}
     fns = []
+    tail_items = []
     out.add("// GENERATED by /verif/vx from %s and %s -- do not edit\n" % (os.path.basename(spec_path), root))
-    out.add("#![allow(unused_imports, unused_variables, dead_code, unused_mut, unused_assignments, non_snake_case, unreachable_code)]\n")
+    out.add("#![feature(allocator_api)]\n#![allow(unused_imports, unused_variables, dead_code, unused_mut, unused_assignments, non_snake_case, unreachable_code)]\n")
     out.add("use vstd::prelude::*;\n")
     out.add(unit.uses)
     out.add("\nverus! {\n\n")
@@ -262,18 +265,23 @@ def generate(spec_path, root, std_contracts_path=None):
     for entry in unit.items:
         kind = entry[0]
         if kind == "opaque_type":
-            out.add("#[verifier::external_body] pub struct %s;\n\n" % entry[2])
+            # the type itself is declared outside verus!{} (see the file tail); inside it is an opaque external type
+            out.add("#[verifier::external_type_specification] #[verifier::external_body] pub struct Ex%s(%s);\n\n" % (entry[2], entry[2]))
+            tail_items.append("#[derive(Clone, PartialEq, Eq)] pub struct %s;\n" % entry[2])
         elif kind == "trait_stub":
             out.add("pub trait %s {}\n\n" % entry[2])
             rules["R5 trait body dropped (%s)" % entry[2]] = 1
         elif kind in ("struct", "enum"):
             it = repo.find(entry[1], kind, entry[2])
             _emit_type(unit, it, out, rules)
+        elif kind == "type":
+            it = repo.find(entry[1], "type", entry[2])
+            out.add("pub " + render(it, it.a, it.b, Edits()) + "\n\n", (it.path, it.line, it.name, [], "type"))
         elif kind == "fn":
             fs = entry[2]
             it = repo.find(fs.file, "fn", fs.name, fs.impl)
             fns.append(_emit_fn(unit, fs, it, out, rules))
-    out.add("\n} // verus!\n\nfn main() {}\n")
+    out.add("\n} // verus!\n\n" + "".join(tail_items) + "fn main() {}\n")
     text = out.text()
     scan = scan_assumptions(text)
     return Generated(unit, text, out, fns, rules, scan)
@@ -292,11 +300,18 @@ def _emit_type(unit, it, out, rules):
         m = re.match(r"#\[derive\((.*)\)\]", a.replace("\n", " "))
         if m:
             derives += [d.strip() for d in m.group(1).split(",") if d.strip()]
-    keep = [d for d in derives if d in ("Clone", "Copy", "PartialEq", "Eq")]
+    keep = [d for d in derives if d in ("Clone", "Copy", "PartialEq", "Eq", "Hash")]
     dropped = [d for d in derives if d not in keep]
     if it.attrs:
         _bump(rules, "R5 attributes dropped/re-emitted")
     head = ""
+    if it.kind == "enum" and "PartialEq" in keep and it.body:
+        inner = [t.text for t in toks[it.body[0] + 1:it.body[1]]]
+        if "(" not in inner and "{" not in inner:
+            if "Eq" not in keep:
+                keep.append("Eq")           # marker trait, sound for a field-less enum with derived PartialEq
+            keep.append("Structural")       # field-less enum: `==` is structural equality (what derive(PartialEq) generates)
+            _bump(rules, "R5 derive(PartialEq, Eq) on field-less enum re-emitted with Verus' Structural")
     if keep:
         head += "#[derive(%s)]\n" % ", ".join(keep)
     vis = "pub "
@@ -426,7 +441,8 @@ def _emit_fn(unit, fs, it, out, rules):
     if fs.external:
         # R7: body dropped
         sig = render(it, it.a, bo, ed)
-        out_text = "#[verifier::external_body]\n" + sig + spec_text + "{ unimplemented!() }"
+        out_text = sig + spec_text + "{ unimplemented!() }"
+        fs_attrs_extra = ["#[verifier::external_body]"]
         _bump(rules, "R7 external (body not verified): %s" % fs.qual)
     else:
         ed.ins_before(bo, spec_text)
@@ -527,8 +543,9 @@ def _emit_fn(unit, fs, it, out, rules):
     for kname, n in counts.items():
         _bump(rules, kname, n)
     vis = it.vis + " " if it.vis else ""
-    if fs.attrs:
-        vis = "\n".join(fs.attrs) + "\n    " + vis
+    all_attrs = list(fs.attrs) + (["#[verifier::external_body]"] if fs.external else [])
+    if all_attrs:
+        vis = "\n".join(all_attrs) + "\n    " + vis
     parent = getattr(it, "parent", None)
     if parent is not None:
         header = parent.text(parent.a, parent.body[0])
